@@ -305,21 +305,73 @@ package decimal
 //@   hint[after:dnorm#1] assert(result == (10*(old(V(x.mant))*old(V(y.mant))) < P(len(z.mant)) ? 1 : 0))
 //@   tags support C08,C04
 
+// dd: the number of zero words uquo appends to the dividend (so that the quotient has
+// at least prec/19 + 1 words); d2: length of the adjusted dividend minus that of the divisor.
+//@ define quo_dd(p, lx, ly) = (p/19 + 1 - lx + ly > 0 ? p/19 + 1 - lx + ly : 0)
+//@ define quo_d2(p, lx, ly) = lx + quo_dd(p, lx, ly) - ly
+
+// Quotient: with gq, gr the Euclidean quotient and remainder of Mx*B^dd by My, gL words and
+// gs leading zero digits in gq, the receiver is (gq*10^gs + eps)*10^(e - 19*gL) rounded
+// once, eps > 0 iff gr != 0; [digits] says the zeros shifted in by the normalisation lie
+// strictly below the rounding digit, so eps*10^gs < 10^gs never reaches it (DESIGN.md C01).
 //@ func (z *Decimal) uquo(x, y *Decimal)
 //@   requires[wf]    z != nil && z.prec >= 1 && z.prec <= 1000000000 && z.mode <= 5 && finop(x) && finop(y) && sep(z, x) && sep(z, y) && len(x.mant) <= 10000000 && len(y.mant) <= 10000000
 //@   modifies z.acc, z.exp, z.form, z.mant, memcap(z.mant)
+//@   ghost gq, gr, gL, gs
 //@   ensures[form,C08] (z.form == finite || z.form == zero || z.form == inf) && 0 - 1 <= z.acc && z.acc <= 1
 //@   ensures[underflow,C02,C04] z.form == zero ==> z.acc != 0
 //@   ensures[shape,C08] z.form == finite ==> mantok(z) && 19*len(z.mant) < z.prec + 19 && (19*len(z.mant) > z.prec ==> z.mant[0] % p10(19*len(z.mant) - z.prec) == 0)
 //@   ensures[buffer,C18] (z.mant.arr == old(z.mant.arr) && z.mant.off == old(z.mant.off) && cap(z.mant) == old(cap(z.mant))) || fresh(z.mant)
+//@   ensures[quo,C01,C02,C06] gq*old(V(y.mant)) + gr == old(V(x.mant))*P(quo_dd(z.prec, old(len(x.mant)), old(len(y.mant)))) && 0 <= gr && gr < old(V(y.mant))
+//@   ensures[norm,C01] 0 <= gs && gs <= 18 && gL >= 1 && P(gL) <= 10*(gq*p10(gs)) && gq*p10(gs) < P(gL)
+//@   ensures[digits,C01,C02] 19*gL - gs >= z.prec + 1
+//@   ensures[value,C01,C02] roundspec(z, gq*p10(gs), gL, old(x.exp) - old(y.exp) - 19*(quo_d2(z.prec, old(len(x.mant)), old(len(y.mant))) - gL) - gs, gr != 0)
 //@   hint[entry] V_ge_P(x.mant, 0, len(x.mant))
 //@   hint[entry] V_bounds(y.mant, 0, len(y.mant))
 //@   hint[entry] V_ge_P(y.mant, 0, len(y.mant))
 //@   hint[entry] P_mono(0, len(y.mant)-1)
-//@   hint[after:div#1] len(result0) >= 1 ==> V_ge_P(result0, 0, len(result0))
+//@   hint[entry] V_top(x.mant, 0, len(x.mant))
+//@   hint[entry] mul_mono(B/10, x.mant[len(x.mant)-1], P(len(x.mant)-1))
+//@   hint[entry] Pdef(len(x.mant)-1)
+//@   hint[entry] assert(10*V(x.mant) >= P(len(x.mant)))
+//@   hint[entry] P_add(len(x.mant), quo_dd(z.prec, len(x.mant), len(y.mant)))
+//@   hint[entry] P_add(quo_d2(z.prec, len(x.mant), len(y.mant)), len(y.mant))
+//@   hint[entry] mul_mono(P(len(x.mant)), 10*V(x.mant), P(quo_dd(z.prec, len(x.mant), len(y.mant))))
+//@   hint[entry] P_mono(0, quo_dd(z.prec, len(x.mant), len(y.mant)))
+//@   hint[entry] P_mono(0, quo_d2(z.prec, len(x.mant), len(y.mant)))
+//@   hint[entry] assert(quo_d2(z.prec, len(x.mant), len(y.mant)) >= z.prec/19 + 1 && 10*(V(x.mant)*P(quo_dd(z.prec, len(x.mant), len(y.mant)))) >= P(quo_d2(z.prec, len(x.mant), len(y.mant)))*P(len(y.mant)))
+//@   hint[after:copy#1] V_split(xadj, 0, len(xadj) - len(x.mant), len(xadj))
+//@   hint[after:copy#1] V_zero(xadj, 0, len(xadj) - len(x.mant))
+//@   hint[after:copy#1] assert(V(xadj) == old(V(x.mant))*P(quo_dd(z.prec, old(len(x.mant)), old(len(y.mant)))) && len(xadj) == old(len(x.mant)) + quo_dd(z.prec, old(len(x.mant)), old(len(y.mant))))
 //@   hint[after:copy#1] V_ge_P(xadj, 0, len(xadj))
 //@   hint[after:copy#1] P_mono(len(y.mant), len(xadj)-1)
 //@   hint[entry] len(x.mant) > len(y.mant) ==> P_mono(len(y.mant), len(x.mant)-1)
+//@   hint[after:div#1] bind(gq, V(result0))
+//@   hint[after:div#1] bind(gr, V(result1))
+//@   hint[after:div#1] bind(gL, len(result0))
+//@   hint[after:div#1] assert(V(result0)*old(V(y.mant)) + V(result1) == old(V(x.mant))*P(quo_dd(z.prec, old(len(x.mant)), old(len(y.mant)))))
+//@   hint[after:div#1] V_nonneg(result1, 0, len(result1))
+//@   hint[after:div#1] V_nonneg(result0, 0, len(result0))
+//@   hint[after:div#1] mul_mono(old(V(y.mant)) + 1, P(old(len(y.mant))), P(quo_d2(z.prec, old(len(x.mant)), old(len(y.mant)))))
+//@   hint[after:div#1] 10*(V(result0) + 1) <= P(quo_d2(z.prec, old(len(x.mant)), old(len(y.mant)))) ==> mul_mono(10*(V(result0) + 1), P(quo_d2(z.prec, old(len(x.mant)), old(len(y.mant)))), old(V(y.mant)))
+//@   hint[after:div#1] Pdef(quo_d2(z.prec, old(len(x.mant)), old(len(y.mant))) - 1)
+//@   hint[after:div#1] assert(10*V(result0) >= P(quo_d2(z.prec, old(len(x.mant)), old(len(y.mant)))))
+//@   hint[after:div#1] len(result0) >= 1 ==> V_ge_P(result0, 0, len(result0))
+//@   hint[after:div#1] V_zero_iff(result1, 0, len(result1))
+//@   hint[after:div#1] assert(len(result0) >= 1 && (len(result1) > 0 <==> V(result1) != 0))
+//@   hint[after:dnorm#1] bind(gs, result)
+//@   hint[after:dnorm#1] V_top(z.mant, 0, len(z.mant))
+//@   hint[after:dnorm#1] V_bounds(z.mant, 0, len(z.mant))
+//@   hint[after:dnorm#1] mul_mono(B/10, z.mant[len(z.mant)-1], P(len(z.mant)-1))
+//@   hint[after:dnorm#1] Pdef(len(z.mant)-1)
+//@   hint[after:dnorm#1] assert(P(gL) <= 10*(gq*p10(result)) && gq*p10(result) < P(gL) && gL == len(z.mant) && V(z.mant) == gq*p10(result))
+//@   hint[after:dnorm#1] mul_mono(P(quo_d2(z.prec, old(len(x.mant)), old(len(y.mant)))), 10*gq, p10(result))
+//@   hint[after:dnorm#1] p10_P(quo_d2(z.prec, old(len(x.mant)), old(len(y.mant))))
+//@   hint[after:dnorm#1] p10_P(gL)
+//@   hint[after:dnorm#1] p10_add(19*quo_d2(z.prec, old(len(x.mant)), old(len(y.mant))), result)
+//@   hint[after:dnorm#1] p10def(19*gL)
+//@   hint[after:dnorm#1] 19*quo_d2(z.prec, old(len(x.mant)), old(len(y.mant))) + result >= 19*gL + 1 ==> p10_mono(19*gL + 1, 19*quo_d2(z.prec, old(len(x.mant)), old(len(y.mant))) + result)
+//@   hint[after:dnorm#1] assert(19*gL - result >= 19*quo_d2(z.prec, old(len(x.mant)), old(len(y.mant))))
 //@   tags support C08,C04
 
 // ---------------------------------------------------------------------------
@@ -535,6 +587,17 @@ package decimal
 //@   ensures[buffer,C18] buffer_ok(z)
 //@   ensures[valid,C08] valid(z)
 //@   ensures[sign,C01,C04] z.neg == (old(x.neg) != old(y.neg))
+//@   ghost gq, gr, gL, gs
+//@   ensures[quo,C01,C02,C06] old(x.form) == finite && old(y.form) == finite ==>
+//@        gq*old(V(y.mant)) + gr == old(V(x.mant))*P(quo_dd(z.prec, old(len(x.mant)), old(len(y.mant)))) && 0 <= gr && gr < old(V(y.mant))
+//@   ensures[norm,C01] old(x.form) == finite && old(y.form) == finite ==> 0 <= gs && gs <= 18 && gL >= 1 && P(gL) <= 10*(gq*p10(gs)) && gq*p10(gs) < P(gL)
+//@   ensures[digits,C01,C02] old(x.form) == finite && old(y.form) == finite ==> 19*gL - gs >= z.prec + 1
+//@   ensures[value,C01,C02] old(x.form) == finite && old(y.form) == finite ==>
+//@        roundspec(z, gq*p10(gs), gL, old(x.exp) - old(y.exp) - 19*(quo_d2(z.prec, old(len(x.mant)), old(len(y.mant))) - gL) - gs, gr != 0)
+//@   hint[after:uquo#1] bind(gq, ghost_gq)
+//@   hint[after:uquo#1] bind(gr, ghost_gr)
+//@   hint[after:uquo#1] bind(gL, ghost_gL)
+//@   hint[after:uquo#1] bind(gs, ghost_gs)
 //@   ensures[specials,C04] ((old(x.form) == zero || old(y.form) == inf) ==> z.form == zero && z.acc == 0) &&
 //@        ((old(x.form) == inf || old(y.form) == zero) ==> z.form == inf && z.acc == 0)
 //@   panics[nan,C04] (old(x.form) == zero && old(y.form) == zero) || (old(x.form) == inf && old(y.form) == inf)
